@@ -73,6 +73,18 @@ def point_sets(rng, d, tier):
     return sets + small
 
 
+def pointwise(b, probes, lab, fails, stats):
+    """membership of a point must not depend on which other points are in the same call"""
+    with np.errstate(all='ignore'):
+        together = np.asarray(b.contains(probes))
+        alone = np.array([bool(np.asarray(b.contains(probes[i:i + 1]))[0]) for i in range(len(probes))])
+    stats['pointwise'] = stats.get('pointwise', 0) + len(probes)
+    if not np.array_equal(together, alone):
+        i = int(np.flatnonzero(together != alone)[0])
+        fails.append('%s: contains() of a point depends on the batch it is asked in: together %s, alone %s, point %s' % (
+            lab, bool(together[i]), bool(alone[i]), [float(x).hex() for x in probes[i]]))
+
+
 def check_ellipsoid(e, pts, enlarge, label, fails, cases_q, rng, with_construction=True):
     """numeric checks + cases for the exact quadratic form"""
     d = e.n_dim
@@ -221,6 +233,7 @@ def build_and_check(nb, seed, tier):
                 cn, co = n.contains(probes), n.outer_bound.contains(probes)
             if np.any(cn & ~co):
                 fails.append('NeuralBound-%d-n%d: contains a point outside its outer ellipsoid' % (d, nn))
+            pointwise(n, probes[:60], 'NeuralBound-%d-n%d' % (d, nn), fails, stats)
             if nn:
                 with np.errstate(all='ignore'):
                     pt = n.outer_bound.transform(probes)
@@ -258,6 +271,7 @@ def build_and_check(nb, seed, tier):
                         bad = s[~np.all((s >= 0) & (s < 1), axis=1)][0]
                         fails.append('%s: sampled point outside the unit cube: %s' % (lab, [float(x).hex() for x in bad]))
                     probes = np.vstack([s[:40], rng.random((160, d)), pts[ll >= lmin][:40]])
+                    pointwise(b, probes[:80], lab, fails, stats)
                     with np.errstate(all='ignore'):
                         q = b.shift.transform(probes) if b.shift is not None else probes
                         co = b.outer_bound.contains(q)
